@@ -76,7 +76,8 @@ def build_impl(bins=True):
 def build_model():
     """make the Coq development (no-op when up to date), extract, compile the OCaml driver"""
     with Lock('coq'):
-        if not os.path.exists(os.path.join(COQ, 'Makefile')):
+        mk = os.path.join(COQ, 'Makefile')
+        if not os.path.exists(mk) or os.path.getmtime(mk) < os.path.getmtime(os.path.join(COQ, '_CoqProject')):
             sh(['coq_makefile', '-f', '_CoqProject', '-o', 'Makefile'], cwd=COQ)
         r = sh(['timeout', '3000', 'make', '-j16'], cwd=COQ, check=False, timeout=3100)
         if r.returncode != 0:
@@ -86,11 +87,8 @@ def build_model():
         srcs = [os.path.join(COQ, 'Extract', 'Extract.vo'), os.path.join(OCAML, 'driver.ml')]
         if (not os.path.exists(drv)) or any(os.path.getmtime(s) > os.path.getmtime(drv) for s in srcs if os.path.exists(s)) \
                 or not os.path.exists(ml):
-            sh(['coqc', '-Q', '.', 'LV', 'Extract/Extract.v'], cwd=COQ)
-            for f in ('model.ml', 'model.mli'):
-                p = os.path.join(COQ, f)
-                if os.path.exists(p):
-                    os.remove(p)
+            if not os.path.exists(ml):
+                sh(['coqc', '-Q', '.', 'LV', 'Extract/Extract.v'], cwd=COQ)
             sh(['ocamlfind', 'ocamlopt', '-O2', '-w', '-a', 'model.mli', 'model.ml', 'driver.ml', '-o', 'driver'], cwd=OCAML)
         return True, ''
 
@@ -381,3 +379,12 @@ def known_findings():
     if not os.path.exists(p):
         return []
     return json.load(open(p)).get('findings', [])
+
+
+def harness_sema(paths):
+    """analysis only (no files written): list of result dicts"""
+    r = sh([HARNESS_BIN, 'batch-sema'], input=''.join(p + '\n' for p in paths), timeout=1800)
+    lines = [l for l in r.stdout.split('\n') if l.strip()]
+    if len(lines) != len(paths):
+        raise RuntimeError('harness returned %d results for %d inputs' % (len(lines), len(paths)))
+    return [json.loads(l) for l in lines]
